@@ -107,6 +107,8 @@ def _r031(ctx: Ctx) -> None:
                 v = outs[0].value
                 if isinstance(v, MiniCSR):
                     v = v.toarray()
+                if v is TOP or 'TOP' in repr(v):
+                    raise AnalysisError('R03.1', site, f'{what}: result not tracked by the analysis ({v!r})')
                 if not isinstance(v, np.ndarray):
                     ok, detail = False, f'result is {v!r}, not an array'
                 else:
@@ -141,8 +143,18 @@ def _r031_overlap(ctx: Ctx) -> None:
     cases = [('equal symbolic arguments (omega(a,a) = 0)', A, A, Poly.const(0)),
              ('all-ones operands (overlap 4)', ones, ones, 0),
              ('all-ones matrix x all-ones vector', np.ones((2, 2 * n), dtype=int), np.ones(2 * n, dtype=int), 0)]
+    # dense operands of different integer dtypes (what the library itself produces: to_bsf gives np.uint, a hand-written
+    # array int64, logicals uint8): NumPy promotes uint64 with a signed type to float64, on which % 2 is defined and the
+    # bit operators are not
+    dts = ['uint8', 'int8', 'int32', 'int64', 'uint64', 'uint32']
+    for da, db in itertools.product(dts, dts):
+        if da == db and da != 'uint64':
+            continue
+        cases.append((f'all-ones operands of dtype {da} x {db}', np.ones((1, 2 * n), dtype=da), np.ones((1, 2 * n), dtype=db), 0))
     for label, a0, b0, want in cases:
         for ka, kb in itertools.product(['dense', 'sparse'], ['dense', 'sparse']):
+            if 'dtype' in label and (ka, kb) != ('dense', 'dense'):
+                continue
             if (ka == 'sparse' and a0.ndim == 1) or (kb == 'sparse' and b0.ndim == 1):
                 continue
             a = MiniCSR(np.array(a0)) if ka == 'sparse' else np.array(a0)
@@ -154,11 +166,13 @@ def _r031_overlap(ctx: Ctx) -> None:
             got = None
             if ok:
                 v = outs[0].value
+                if v is TOP or 'TOP' in repr(v):
+                    raise AnalysisError('R03.1', site, f'bs_prod ({label}): result not tracked by the analysis ({v!r})')
                 v = v.toarray() if isinstance(v, MiniCSR) else v
                 got = list(np.asarray(v, dtype=object).reshape(-1))
                 ok = all((g == want) for g in got) and len(got) >= 1
             ctx.ob('R03.1', site, f'bs_prod reduces mod 2: {label}, a {ka}, b {kb}', ok,
-                   f'got {got!r}, expected all entries {want!r}', key=f'bs_prod|mod2|{label}|{ka}|{kb}',
+                   (f'got {got!r}, expected all entries {want!r}' if got is not None else f'paths: {outs!r}'), key=f'bs_prod|mod2|{label}|{ka}|{kb}',
                    facts={'got': repr(got)})
 
 
